@@ -39,6 +39,10 @@ def _model_job(a):
                 v = np.array(p.get_val(name), dtype=float)
             except Exception:
                 continue
+            if name.split(".")[-1] in ("Mach_number", "Mach_number_0", "Mach_number_1"):
+                # across the wave-drag onset (both values well away from it): branches that assign nothing must leave zeros
+                p.set_val(name, np.where(v > 0.7, 0.45, 0.86))
+                continue
             if name.split(".")[-1] in ("alpha", "alpha_0", "twist_cp", "v", "v_0", "rho", "rho_0", "loads", "thickness_cp", "spar_thickness_cp", "sweep", "taper") or name.endswith("twist_cp"):
                 p.set_val(name, v * (1.0 + 0.05 * rng.uniform(0.5, 1.0)) + (0.3 if "twist" in name or "alpha" in name else 0.0))
         m.run()
